@@ -17,6 +17,10 @@ GOSYM = os.path.join(ROOT, "bin", "gosym")
 ENV = dict(os.environ, GOFLAGS="-mod=mod", GOPROXY="off", GOSUMDB="off", GOTOOLCHAIN="local")
 ENGINE_ENV = dict(ENV, GOGC="400")
 NCPU = int(os.environ.get("VERIF_JOBS", "14"))
+# evidence/<ID>.json is rewritten by every run; seed evaluations (tools/seed_eval.sh), which run the
+# checks against a deliberately broken tree, send theirs elsewhere so that the committed evidence
+# always describes the unchanged tree
+EVIDENCE_DIR = os.environ.get("VERIF_EVIDENCE_DIR", os.path.join(ROOT, "evidence"))
 
 
 def sh(cmd, **kw):
@@ -343,7 +347,7 @@ def main():
     pid = args.prop
     t_start = time.time()
     os.makedirs(os.path.join(ROOT, ".work"), exist_ok=True)
-    os.makedirs(os.path.join(ROOT, "evidence"), exist_ok=True)
+    os.makedirs(EVIDENCE_DIR, exist_ok=True)
     checks = json.load(open(os.path.join(ROOT, "checks.json")))
     if pid not in checks:
         print("no check registered for", pid)
@@ -593,7 +597,7 @@ def main():
         "assumptions": chk.get("assumptions", []),
         "wall_s": round(wall, 2), "violations": len(confirmed),
     }
-    json.dump(ev, open(os.path.join(ROOT, "evidence", pid + ".json"), "w"), indent=1)
+    json.dump(ev, open(os.path.join(EVIDENCE_DIR, pid + ".json"), "w"), indent=1)
     if not args.keep:
         shutil.rmtree(workdir, ignore_errors=True)
 
